@@ -220,7 +220,7 @@ def run_cases(fn_mod, fn_name, items, workers=None, deadline=None, on_result=Non
                 nxt += 1
             if not pending:
                 break
-            done, _ = cf.wait(list(pending), timeout=RUN_CAP_S * 6 + 30, return_when=cf.FIRST_COMPLETED)
+            done, _ = cf.wait(list(pending), timeout=max(RUN_CAP_S * 6 + 30, 900), return_when=cf.FIRST_COMPLETED)
             if not done:
                 raise HarnessFailure('HARNESS-TIMEOUT', 'worker pool made no progress')
             for fut in done:
